@@ -1,6 +1,9 @@
 """C03 - runs are reproducible and unaffected by where they are stopped and resumed."""
 import hashlib, json, os, subprocess, sys, random
-from harness import kprops, kgen, kscript, koracle
+from harness import kprops, kgen, kscript, koracle, kbridge
+from harness.kbridge import TRUSTED_EXTRA
+EXTRA_MODULES = kbridge.MODULES['C03']      # Props/KernelGen03: the refusal test and the stop event of run(until=<number>)
+prepare = kbridge.prepare_for('C03')    # regenerates Generated/KernelRun03.lean only
 from vlib.util import VERIF, REPO
 ASSUMPTIONS = ['"observable trace" = what process bodies and probe callbacks see (env.now, values, exceptions, order)',
                'hash-seed independence is sampled (fresh interpreters with several PYTHONHASHSEED values), not a theorem',
@@ -27,7 +30,7 @@ def digests_in_fresh_interpreter(cases, hashseed):
     return json.loads(r.stdout)
 
 def run(ctx):
-    res = kprops.run_kernel(ctx, 'C03', SPEC, 1200, 30000, oracles=[kprops.oracle_split, koracle.oracle_until_event_return])
+    res = kprops.run_kernel(ctx, 'C03', SPEC, 1200, 30000, oracles=[kprops.oracle_split, koracle.oracle_until_event_return], attribute=kprops.split_is_the_cause)
     # reproducibility: same program, same and other interpreter processes, several hash seeds
     rng = random.Random(f'C03-hash-{ctx.seed}')
     cases = kprops.gen_cases(rng, SPEC + [(2, 'res'), (2, 'store'), (2, 'cond')], 150 if ctx.quick else 1500)
@@ -80,4 +83,5 @@ def run(ctx):
     res['coverage']['network_scenario_runs'] = nnet
     res['coverage']['reproducibility_runs'] = 2 * len(cases) + nfresh
     res['coverage']['hash_seeds'] = seeds
+    res['coverage'].update(kbridge.coverage('C03'))
     return res
